@@ -130,6 +130,21 @@ func init() {
 						Repr: func(i int64) string { return fmt.Sprintf("%s quote state, quote %q, string %q x %d", state, string(q), stringByIndex(al, 1+i%npat), pumpCountsSmall[i/npat]) }})
 				}
 			}
+			for _, state := range c14States {
+				for _, q := range c14Quotes {
+					state, q := state, q
+					ctx := []string{"", "a", string(q), string(q) + "a"}
+					sp = append(sp, fw.Space{Name: fmt.Sprintf("charsweep-%s-%U", state, q), N: int64(len(boundaryChars) * len(ctx) * len(ctx)),
+						Run: func(c *fw.Ctx, i int64) {
+							k := int(i) % (len(ctx) * len(ctx))
+							c14Run(c, state, q, ctx[k/len(ctx)]+string(boundaryChars[int(i)/(len(ctx)*len(ctx))])+ctx[k%len(ctx)])
+						},
+						Repr: func(i int64) string {
+							k := int(i) % (len(ctx) * len(ctx))
+							return fmt.Sprintf("%s quote state, quote %q, string %q", state, string(q), ctx[k/len(ctx)]+string(boundaryChars[int(i)/(len(ctx)*len(ctx))])+ctx[k%len(ctx)])
+						}})
+				}
+			}
 			hl := 3
 			for _, state := range c14States {
 				state := state
